@@ -131,6 +131,7 @@ type Trial struct {
 	stalled atomic.Bool
 	loaderV atomic.Int64
 	loads   atomic.Int64
+	bodyWrites   sync.WaitGroup // writes issued by other goroutines while an iteration holds the eviction lock
 	statSamples  atomic.Int64
 	statDecrease atomic.Pointer[string]
 }
@@ -409,17 +410,30 @@ func (t *Trial) worker(w int, rng *core.Rng, out *[]Rec) {
 			if kind == KColdest {
 				it = c.Coldest()
 			}
+			// While the eviction lock is held by this iteration, a write arrives from another
+			// goroutine (never from this one: a write from inside the loop body can block on the
+			// lock this goroutine holds when the write buffer is full).
+			spawn := func() {
+				v := newVal()
+				k := cfg.Keys + 100 + w
+				t.bodyWrites.Add(1)
+				go func() {
+					defer t.bodyWrites.Done()
+					c.Set(k, v)
+				}()
+				runtime.Gosched()
+			}
 			for range it {
 				n++
 				if n == 1 && rng.Chance(1, 2) {
-					c.Set(cfg.Keys+100+w, newVal()) // a key outside the checked domain
+					spawn()
 				}
 				if n > 3 {
 					break
 				}
 			}
 			if n == 0 && rng.Chance(1, 2) {
-				c.Set(cfg.Keys+100+w, newVal())
+				spawn()
 			}
 			r.Ret = t.now()
 			r.N = n
@@ -519,6 +533,7 @@ func (t *Trial) Run() {
 	}
 	close(start)
 	wg.Wait()
+	t.bodyWrites.Wait()
 	stop.Store(true)
 	cwg.Wait()
 	t.wg.Wait()
